@@ -12,6 +12,7 @@
 //	                      h<k>   the same on path /h<k> (its own endpoint)
 //	                      o<k>   nested cc.DoObserve (20 s deadline)
 //	                      p      nested cc.Ping (10 s deadline)
+//	burst:<m1>-<m2>-…   several requests with returning handlers, back to back (no idle point in between)
 //	call:<prog>         the same program run by the application outside any handler
 //	resp:<k>            the peer answers nested exchange k (piggybacked on the datagram transport; with an Observe option for o<k>)
 //	ack:<k>             the peer sends the bare ACK for nested exchange k (udp)
@@ -236,6 +237,18 @@ func (w *world) apply(f []string, obsExch map[int]bool) {
 		mid := w.nextMid
 		w.nextMid++
 		w.push(w.build(message.NonConfirmable, codes.GET, reqTok(m), mid, func(x *pool.Message) { _ = x.SetPath("/req") }))
+	case f[0] == "burst" && len(f) == 2:
+		// several requests with returning handlers put on the wire back to back (no idle point in between)
+		time.Sleep(time.Millisecond)
+		for _, id := range strings.Split(f[1], "-") {
+			m := atoi(id)
+			w.mu.Lock()
+			w.progs[lp.Hex(reqTok(m))] = "r"
+			w.mu.Unlock()
+			mid := w.nextMid
+			w.nextMid++
+			w.push(w.build(message.NonConfirmable, codes.GET, reqTok(m), mid, func(x *pool.Message) { _ = x.SetPath("/req") }))
+		}
 	case f[0] == "resp" && len(f) == 2:
 		k := atoi(f[1])
 		lastReq, ok := w.last[lp.Hex(nestTok(k))]
